@@ -51,7 +51,10 @@ def _file_entries(rng, fid, maxkeys=6, sections=True):
                 break
             n += 1
             # mostly plain ASCII; now and then a byte with the top bit set at the end or inside, or printf directives
-            ents.append([s, k, "v%d.%d" % (fid, n) + (rng.pick(["\xe9", "\xff", "\x80", "\xc3\xa9t", "%s%n", "\xa0\xa0"]) if rng.chance(0.08) else "")])
+            val = "v%d.%d" % (fid, n) + (rng.pick(["\xe9", "\xff", "\x80", "\xc3\xa9t", "%s%n", "\xa0\xa0"]) if rng.chance(0.08) else "")
+            if rng.chance(0.03):
+                val = "[" + val + "]"          # a value that looks like a section header
+            ents.append([s, k, val])
     return ents
 
 
@@ -218,6 +221,21 @@ def model_of(world, mask_first=True):
     return m5(tree, layers_of(read), name, read.get("suffix"), postfixes_of(read), mask_first=mask_first)
 
 
+def trap_nodes(read):
+    """files in the working directory $ROOT/trap with the names a layer's files would have without a directory part"""
+    name = name_of(read)
+    suf = norm_suffix(read.get("suffix"))
+    pfs = postfixes_of(read)
+    pfs = pfs if pfs is not None else [suf + ".d"]
+    out = [{"p": "$ROOT/trap/%s%s" % (name, suf), "t": "f", "entries": [[None, "x", "trap-main"], [None, "trapped", "1"]]}]
+    for pf in pfs:
+        if not pf.startswith("/") or suf:
+            p = norm("$ROOT/trap/%s%s/99-trap%s" % (name, pf, suf))
+            if not any(n["p"] == p for n in out):
+                out.append({"p": p, "t": "f", "entries": [[None, "y", "trap-dropin"], [None, "trapped", "2"]]})
+    return out
+
+
 def gen_layered_world(rng, i, two_layer=None, want_files=True, small=False, allow_refuse=True, allow_nosuffix=True, allow_repeat=False, allow_dotdot=False):
     """Generates a tree of DESIGN.md 5.3 plus the parameters of one layered read."""
     read = {"delim": "=", "comment": "#", "opts": {}}
@@ -289,6 +307,8 @@ def gen_layered_world(rng, i, two_layer=None, want_files=True, small=False, allo
             read["opts"]["config_dirs"] = rng.pick([[".d"], [".conf.d", ".d"], ["/conf.d"], [".d", "/conf.d"], [".dropins"]])
         if rng.chance(0.25) and (read["opts"].get("parsing_dirs") or read["opts"].get("root_prefix")):
             read["opts"]["root_prefix"] = True
+    if read["ep"] == "readConfig" and rng.chance(0.4):
+        read["empty_spelling"] = rng.pick(["name", "name", "both"])
     if rng.chance(0.3):
         read["global_dirs"] = rng.pick([[".d"], [".conf.d", ".d"], ["/conf.d", ".d"], [".x.d"], ["/conf.d"], [".a.d", ".b.d", ".c.d"]])
     if rng.chance(0.15):
@@ -377,8 +397,13 @@ def gen_layered_world(rng, i, two_layer=None, want_files=True, small=False, allo
                     node["entries"] = node["entries"][:1]
                 if kind < 0.07:
                     node = {"p": "%s/%s%s" % (d, nm, suf), "t": "f", "entries": []}
+                    if rng.chance(0.4):
+                        # files of one to three bytes that define nothing
+                        cch = (read["comment"] or "#")[0]
+                        node["c"] = rng.pick(["\n", cch, "\n\n", cch + "\n", " \n", cch + " x"])
                 elif kind < 0.12:
                     node = {"p": "%s/%s%s" % (d, nm, suf), "t": "l", "to": "/dev/null"}
+
                 nodes.append(node)
             # non-members (only meaningful with a suffix)
             if suf and rng.chance(0.5):
@@ -412,6 +437,11 @@ def gen_layered_world(rng, i, two_layer=None, want_files=True, small=False, allo
         cfg["cwd"] = "$ROOT"
     elif allow_dotdot and rng.chance(0.06) and all(l.startswith("$ROOT") for l in layers):
         return apply_dotdot({"kind": "layered", "read": read, "nodes": nodes, "cfg": cfg})
+    elif rng.chance(0.3):
+        # all names are absolute: the working directory is none of the library's business.  It holds a trap - files
+        # with the names a layer would have if a path lost its directory part
+        cfg["cwd"] = "$ROOT/trap"
+        nodes += trap_nodes(read)
     return {"kind": "layered", "read": read, "nodes": nodes, "cfg": cfg}
 
 
@@ -453,7 +483,14 @@ def read_op(read, o=0, cb=None, ep=None, init="null", in_slot=None, faults=None)
     if faults:
         op["faults"] = faults
     if ep == "readConfig":
-        op.update({"op": "readConfig", "in": in_slot, "project": read.get("project"), "usr_subdir": read.get("usr_subdir"), "name": read.get("name")})
+        # an absent optional argument is spelled NULL or "" (seeded per world): both mean "not given"
+        name = read.get("name")
+        if name is None and read.get("empty_spelling"):
+            name = ""
+        project = read.get("project")
+        if project is None and read.get("empty_spelling") == "both":
+            project = ""
+        op.update({"op": "readConfig", "in": in_slot, "project": project, "usr_subdir": read.get("usr_subdir"), "name": name})
     elif ep == "readDirs":
         op.update({"op": "readDirs", "usr": dirarg(read, read.get("usr")), "etc": dirarg(read, read.get("etc")), "name": read.get("name")})
     elif ep == "readDirsHistory":
